@@ -24,6 +24,9 @@ structure well-formed.  It is written against the HUGR specification, not agains
   cond        case count / case rows differ from the conditional's sum rows / outputs
   loop        TailLoop body rows
   static      Call / LoadFunc / LoadConst static edge target of wrong kind or signature
+  varscope    a type / row / const variable (de Bruijn index) occurring in an op, a port type or a
+              signature inside a FuncDefn that is not bound by that FuncDefn's parameter list, or is bound
+              to a parameter of another kind (type vs bounded-nat) or of a weaker bound
 """
 from __future__ import annotations
 
@@ -193,6 +196,7 @@ class _V:
         for n in nodes:
             self.node(n)
         self.links()
+        self.varscope()
         return self.out
 
     def node(self, n: Node) -> None:
@@ -354,6 +358,86 @@ class _V:
                     self.c("cond", f"{self.d(k)}: case {i} outputs {_row_str(cop.outputs)} != conditional outputs {_row_str(op.outputs)}")
             except ops.IncompleteOp:
                 self.c("port", f"{self.d(k)}: case / conditional outputs incomplete")
+
+    # ---- variable scoping
+    def _vars_in(self, j: Any, params: list, where: str) -> None:
+        """every variable occurrence in the serialised term `j` is bound by `params` with a matching kind"""
+        if isinstance(j, list):
+            for x in j:
+                self._vars_in(x, params, where)
+            return
+        if not isinstance(j, dict):
+            return
+        if "params" in j and "body" in j and isinstance(j["params"], list):
+            # a polymorphic signature binds its own variables
+            self._vars_in(j["body"], j["params"], where + " (callee signature)")
+            return
+        t = j.get("t")
+        if t in ("V", "R") and "i" in j:
+            i = j["i"]
+            if not isinstance(i, int) or i >= len(params):
+                self.c("varscope", f"{where}: type variable #{i} but only {len(params)} parameters are bound")
+            else:
+                p = params[i]
+                want = "Type" if t == "V" else "List"
+                if p.get("tp") != want and not (t == "R" and p.get("tp") == "List"):
+                    self.c("varscope", f"{where}: type variable #{i} is bound to a parameter of kind {p.get('tp')}")
+                elif t == "V" and j.get("b") == "C" and p.get("b") not in ("C",):
+                    self.c("varscope", f"{where}: variable #{i} used as Copyable but bound with bound {p.get('b')}")
+            return
+        if j.get("tya") == "Variable":
+            i = j.get("idx", j.get("i"))
+            if not isinstance(i, int) or i >= len(params):
+                self.c("varscope", f"{where}: argument variable #{i} but only {len(params)} parameters are bound")
+            else:
+                decl = j.get("cached_decl") or {}
+                if decl.get("tp") and params[i].get("tp") != decl.get("tp"):
+                    self.c("varscope", f"{where}: variable #{i} used as {decl.get('tp')} but bound as {params[i].get('tp')}")
+            return
+        for k, v in j.items():
+            if k != "cached_decl":
+                self._vars_in(v, params, where)
+
+    def varscope(self) -> None:
+        h = self.h
+        scope: dict[Node, list] = {}
+
+        def params_of(n: Node) -> list:
+            """parameters of the nearest enclosing FuncDefn (none at module level)"""
+            if n in scope:
+                return scope[n]
+            op = h[n].op
+            if isinstance(op, ops.FuncDefn):
+                try:
+                    r = [_ser(p) for p in op.params]
+                except Exception:  # noqa: BLE001
+                    r = []
+            else:
+                par = h[n].parent
+                r = params_of(par) if par is not None else []
+            scope[n] = r
+            return r
+
+        for n in h:
+            op = h[n].op
+            if isinstance(op, ops.Module):
+                continue
+            try:
+                j = op._to_serial(h[n].parent or n).model_dump(mode="json")
+            except Exception:  # noqa: BLE001  (incomplete ops are reported elsewhere)
+                continue
+            if isinstance(op, (ops.FuncDefn, ops.FuncDecl)):
+                # {"signature": {"params", "body"}}: handled by the polymorphic-signature rule
+                self._vars_in(j.get("signature", j), [], self.d(n))
+                continue
+            self._vars_in(j, params_of(n), self.d(n))
+            # port types are derived from the op, but extension ops cache a signature: check those too
+            if isinstance(op, ops.DataflowOp):
+                try:
+                    sig = op.outer_signature()
+                    self._vars_in(_ser(sig), params_of(n), self.d(n) + " (port types)")
+                except Exception:  # noqa: BLE001
+                    pass
 
     # ---- links
     def links(self) -> None:
